@@ -5,10 +5,32 @@ go 1.21
 require github.com/ThreeDotsLabs/watermill v0.0.0
 
 require (
-	github.com/google/uuid v1.6.0 // indirect
-	github.com/lithammer/shortuuid/v3 v3.0.7 // indirect
-	github.com/oklog/ulid v1.3.1 // indirect
-	github.com/pkg/errors v0.9.1 // indirect
+	github.com/cenkalti/backoff/v3 v3.2.2
+	github.com/go-chi/chi/v5 v5.1.0
+	github.com/gogo/protobuf v1.3.2
+	github.com/golang/protobuf v1.5.4
+	github.com/google/uuid v1.6.0
+	github.com/hashicorp/go-multierror v1.1.1
+	github.com/lithammer/shortuuid/v3 v3.0.7
+	github.com/oklog/ulid v1.3.1
+	github.com/pkg/errors v0.9.1
+	github.com/prometheus/client_golang v1.20.2
+	github.com/sony/gobreaker v1.0.0
+	github.com/stretchr/testify v1.9.0
+	google.golang.org/protobuf v1.34.2
+	github.com/beorn7/perks v1.0.1
+	github.com/cespare/xxhash/v2 v2.3.0
+	github.com/davecgh/go-spew v1.1.1
+	github.com/hashicorp/errwrap v1.1.0
+	github.com/klauspost/compress v1.17.9
+	github.com/kr/text v0.2.0
+	github.com/munnerz/goautoneg v0.0.0-20191010083416-a7dc8b61c822
+	github.com/pmezard/go-difflib v1.0.0
+	github.com/prometheus/client_model v0.6.1
+	github.com/prometheus/common v0.55.0
+	github.com/prometheus/procfs v0.15.1
+	golang.org/x/sys v0.24.0
+	gopkg.in/yaml.v3 v3.0.1
 )
 
 replace github.com/ThreeDotsLabs/watermill => /repo
